@@ -733,6 +733,13 @@ Pointset_Powerset<PSET>
 ::simplify_using_context_assign(const Pointset_Powerset& y) {
   Pointset_Powerset& x = *this;
 
+  // The disjuncts of the context `y' are read while those of `x'
+  // are being replaced: they cannot be the same sequence.
+  if (&y == this) {
+    const Pointset_Powerset y_copy(y);
+    return x.simplify_using_context_assign(y_copy);
+  }
+
   // Omega reduction is required.
   // TODO: check whether it would be more efficient to Omega-reduce x
   // during the simplification process: when examining *si, we check
@@ -813,6 +820,9 @@ Pointset_Powerset<PSET>::strictly_contains(const Pointset_Powerset& y) const {
      contained in another disjunct of *this */
   const Pointset_Powerset& x = *this;
   x.omega_reduce();
+  // The empty disjuncts of `y' denote no points: they are dropped
+  // (as happens anyway when `y' is `*this').
+  y.omega_reduce();
   for (Sequence_const_iterator si = y.sequence.begin(),
          y_s_end = y.sequence.end(); si != y_s_end; ++si) {
     const PSET& pi = si->pointset();
@@ -1360,6 +1370,13 @@ BGP99_extrapolation_assign(const Pointset_Powerset& y,
     PPL_ASSERT_HEAVY(y_copy.definitely_entails(x_copy));
   }
 #endif
+
+  // `x' is modified before `y' is read.
+  if (&y == this) {
+    const Pointset_Powerset y_copy(y);
+    x.BGP99_extrapolation_assign(y_copy, widen_fun, max_disjuncts);
+    return;
+  }
 
   x.pairwise_reduce();
   if (max_disjuncts != 0) {
